@@ -1,2 +1,60 @@
-(* placeholder: theorems are added below as they are proved *)
-From QV Require Import Base Fields SrcFacts Msg SrcDecisions Cache CacheSpec.
+(* Properties_C18.v — refresh warnings follow each record's lifetime and stop with it. *)
+From QV Require Import Base Fields SrcFacts Msg SrcDecisions Cache CacheSpec CacheProofs.
+Local Open Scope Z_scope.
+
+(* the schedule written by addRecord: 50 / 85 / 90 / 95 % of the TTL plus the jitter, then the expiry;
+   strictly increasing, so each warning instant lies strictly before the expiry *)
+Theorem C18_schedule_shape now j ttl :
+  (1 <= ttl <= TTL_MAX)%N -> 0 <= j < cache_jitter_bound ->
+  triggers now j ttl =
+    [now + Z.of_N ttl * 500 + j; now + Z.of_N ttl * 850 + j; now + Z.of_N ttl * 900 + j;
+     now + Z.of_N ttl * 950 + j; now + 1000 * Z.of_N ttl]
+  /\ sorted (triggers now j ttl).
+Proof.
+  intros H1 H2. pose proof jitter_bound_ok. rewrite (triggers_value now j ttl) by lia.
+  split; [reflexivity|]. apply schedule_sorted; lia.
+Qed.
+Print Assumptions C18_schedule_shape.
+
+(* advancing to t under exact scheduling: the warnings concerning a record are exactly the not yet
+   consumed warning instants of its current schedule that are <= t, in order, each raised at its own
+   instant; a record that is not (or no longer) stored - expired, replaced, withdrawn - gets none *)
+Theorem C18_warnings now c t r :
+  GInv now c -> now <= t ->
+  filter (fun x => negb (is_expired x)) (sigs_for r (snd (cstep (now, c) (CAdv t)))) =
+    match stored r (c_entries c) with
+    | Some e => map (fun m => (m, ShouldQuery (e_rec e))) (filter (fun m => m <=? t) (removelast (e_trig e)))
+    | None => []
+    end.
+Proof.
+  intros G Hnt. destruct (cadv_spec now c t r G Hnt) as (_ & _ & _ & S). rewrite S.
+  destruct (stored r (c_entries c)) as [e|] eqn:St; [|reflexivity].
+  apply expect_warnings. destruct (stored_In r _ e St) as [He _]. exact (proj1 (g_wf _ _ G e He)).
+Qed.
+Print Assumptions C18_warnings.
+
+(* re-adding restarts the schedule; a goodbye removes it (so no warning can follow, by C18_warnings) *)
+Theorem C18_readd_restarts now j r c : (r_ttl r <> 0)%N ->
+  stored r (c_entries (fst (add now j r c))) = Some (mkEntry r (triggers now j (r_ttl r))).
+Proof. exact (add_restarts now j r c). Qed.
+Print Assumptions C18_readd_restarts.
+
+Theorem C18_goodbye_stops now j r c : r_ttl r = 0%N -> stored r (c_entries (fst (add now j r c))) = None.
+Proof. exact (add_goodbye now j r c). Qed.
+Print Assumptions C18_goodbye_stops.
+
+(* additions raise no warning at all *)
+Theorem C18_add_raises_none now j r c s snap : In (s, snap) (snd (add now j r c)) -> exists x, s = Expired x.
+Proof.
+  intro H. assert (In s (map fst (snd (add now j r c)))) by (apply in_map_iff; exists (s, snap); auto).
+  rewrite add_signals in H0. destruct (r_ttl r =? 0)%N; [|destruct H0].
+  apply in_map_iff in H0 as [e [<- _]]. eauto.
+Qed.
+Print Assumptions C18_add_raises_none.
+
+(* non-vacuity: TTL 1 s with the maximal jitter still warns four times before expiring *)
+Example C18_example :
+  let a := set_ttl 1 (set_addr (A4 1) (set_type 1 (set_name (Some [97; 46]%N) default_record))) in
+  map (fun o => match o with OSig t (ShouldQuery _) _ => t | OSig t (Expired _) _ => - t | _ => 0 end)
+      (crun (0, empty_cache) [CAdd a 19; CAdv 5000]) = [519; 869; 919; 969; -1000].
+Proof. vm_compute. reflexivity. Qed.
